@@ -1,11 +1,67 @@
 (* C04 — change detection is exact: own writes invisible, diffs sound and complete.
    Only statements here; proofs in Proofs/C04*.v.  Models: Model/Diff.v (diffs.diff_iter / reduce_iter),
    Model/Storage.v (DiffBaseStorage.build = dbuild, ProgressStorage.clear = pclear, stores, marker),
-   Model/Essence.v (old/new/diff as processing.py computes them, adjust_cause), Model/OwnWrites.v.
-   All quantifiers are unbounded (every json body of any nesting, every prefix, every digest oracle dg). *)
+   Model/Essence.v (old/new/diff as processing.py computes them, adjust_cause), Model/OwnWrites.v (the framework's
+   writes, finalizers), Model/Results.v (deliver_results).  All quantifiers are unbounded: every json body of any
+   nesting, every prefix, every handler id, every digest oracle dg.  "all configs" = every dstorage/pstorage incl.
+   arbitrarily nested Multi, every extra_fields/ignored_fields; "ann configs" = DAnn Q + PAnn Q' (and the default
+   smart progress storage), ignored_fields = extra_fields = [].
+
+   CLAUSE TABLE (statement of properties.jsonl C04, split)
+   ---------------------------------------------------------------------------------------------------------------
+   A  "triggered only by essential changes"
+   A1 own writes never count
+      progress records / purge / touch-dummy      FULL (ann configs): C04_own_progress_store_invisible(+_first,+_smart),
+                                                   C04_own_progress_purge_invisible, C04_own_touch_invisible(+_smart)
+      last-handled state (diff-base store)        PARTIAL, guard = exactly F41: C04_own_diffbase_store_invisible
+                                                   (+_first_store, +_fresh_store, +_smart); REFUTED without the guard:
+                                                   C04_own_writes_invisible_refuted (finding F41)
+      whole accumulated patch of a cycle, any     PARTIAL (guard F41; none when the two prefixes coincide):
+      list of store/purge/diffbase/touch/marker   C04_own_patch_invisible, C04_own_patch_invisible_same_prefix,
+                                                   C04_own_patch_after_store_invisible; smart: ..._smart_partial
+      writes confined to the status stanza        FULL (all configs): C04_status_patch_invisible (status progress /
+      (status storages, handler results)          diff-base storages, results), C04_results_invisible
+      finalizer added / removed                   FULL (all configs): C04_finalizer_block_invisible, C04_finalizer_allow_invisible
+      one patch touching status AND annotations   monitored only (monitor own-write-visible, tie D:own) — e.g. smart purge
+      with status storages in the own-writes thms  of a record still present in status, DStatus + PAnn
+   A2 the status stanza never counts              FULL (all configs): C04_system_fields_invisible_status(+_removed),
+                                                   C04_status_patch_invisible; exact proviso (handlers' fields inside
+                                                   status must not see the change): C04_status_patch_invisible_fields
+   A3 system metadata never counts                FULL (all configs): C04_essence_frame (the essence depends on NOTHING but
+                                                   payload keys, labels, annotations, the ReplicaSet-of-Deployment bit and
+                                                   the handlers' field values), corollaries C04_system_metadata_general,
+                                                   C04_system_kind_invisible, C04_system_fields_invisible_*
+   A4 handling can never trigger itself           PARTIAL (ann configs + smart; guard F41): C04_no_self_trigger(_wf_body,
+                                                   _smart), C04_no_self_trigger_after_own_writes; REFUTED without the guard:
+                                                   C04_no_self_trigger_guard_needed (F41: one spurious UPDATE).
+                                                   Other configurations: monitored only (monitor self-trigger-after-store /
+                                                   cycle own-write:noop, tie D:essence)
+   A5 no ping-pong with another Kopf operator     FULL as far as detection goes (all configs of the observer):
+                                                   C04_prefix_detectable_after_store(+_diffbase), C04_other_operator_invisible
+                                                   (+_diffbase); essence UNCHANGED (ann configs): C04_other_operator_first_store_
+                                                   invisible, _later_store_invisible; PARTIAL guard = F41: C04_other_operator_
+                                                   store_invisible_partial.  (F5 fixed by kopf e6fe434.)
+   A6 any other change does count
+      spec / other payload fields                 FULL (all configs): C04_payload_visible, C04_payload_change_visible
+      labels                                      FULL (all configs): C04_labels_visible, C04_label_visible, C04_label_change_visible,
+                                                   C04_label_remove_visible, C04_labels_absent
+      ordinary annotations                        FULL (all configs): C04_annotation_visible(+_gen), C04_annotation_change_visible,
+                                                   C04_annotation_add_visible ("ordinary" = not under a marked / own prefix,
+                                                   not kubectl last-applied — exactly the exclusions of the statement)
+   B  "old/new/diff given to handlers are exact"
+   B1 applying diff to old yields new             PARTIAL modulo deq: C04_diff_sound; REFUTED for JSON equality:
+   B2 diff empty only if nothing differs          C04_diff_strict_refuted, C04_diff_strict_bool_refuted (finding F3); C04_diff_complete,
+                                                   C04_update_iff_essential_change
+   B3 narrowed to a handler's field               FULL: C04_reduce_exact (literal list equality), C04_field_handler_exact(+_create)
+   Observation (pinned by kopf's tests, no finding): a handler's field= path running through a non-mapping value makes
+   DiffBaseStorage.build fail (TypeError): C04_field_through_nonmapping_fails; model and code agree (D:build, D:essence).
+   NOT COVERED: floats (1 == 1.0; outside the model); metadata.annotations/labels that are not mappings; non-empty
+   ignored_fields/extra_fields in the ann-config own-write theorems (monitored); the closed loop on a simulated API
+   server (only the function-level loop old_new_diff o merge o own_patch is proved/monitored).
+   --------------------------------------------------------------------------------------------------------------- *)
 From Coq Require Import ZArith NArith List String Bool Ascii.
-From KV Require Import Base.Json Base.Dicts Model.Keys Model.Storage Model.Diff Model.Essence Model.OwnWrites.
-From KV Require Import Proofs.C04Diff Proofs.C04Reduce Proofs.C04System Proofs.C04Own Proofs.C04Bridge Proofs.C04Other Proofs.C04Main Proofs.C04Witness.
+From KV Require Import Base.Json Base.Dicts Model.Keys Model.Storage Model.Diff Model.Essence Model.OwnWrites Model.Results.
+From KV Require Import Proofs.C04Diff Proofs.C04Reduce Proofs.C04System Proofs.C04Own Proofs.C04Bridge Proofs.C04Other Proofs.C04Frame Proofs.C04Visible Proofs.C04Cycle Proofs.C04Results Proofs.C04Main Proofs.C04Witness.
 Import ListNotations.
 Open Scope string_scope.
 Open Scope list_scope.
@@ -445,3 +501,540 @@ Example C04_other_operator_marked_ex :
   end = true.
 Proof. exact other_operator_marked_ex. Qed.
 Print Assumptions C04_other_operator_marked_ex.
+
+(* ======================= deepening round: what the essence depends on (A2, A3) ======================= *)
+(* two bodies that agree on the payload keys, labels, annotations, the ReplicaSet-of-Deployment bit and the handlers' field values have the SAME essence: everything else (all system metadata at once, status, apiVersion, kind) is invisible *)
+Theorem C04_essence_frame :
+  forall dg ds ps kvs kvs' extra,
+  sy_strip kvs = sy_strip kvs' ->
+  resolve_strict (JObj kvs) ["metadata"; "labels"] = resolve_strict (JObj kvs') ["metadata"; "labels"] ->
+  resolve_strict (JObj kvs) ["metadata"; "annotations"] = resolve_strict (JObj kvs') ["metadata"; "annotations"] ->
+  is_drs_body (JObj kvs) = is_drs_body (JObj kvs') ->
+  (forall f, In f extra -> resolve_strict (JObj kvs) f = resolve_strict (JObj kvs') f) ->
+  essence dg ds ps (JObj kvs) extra = essence dg ds ps (JObj kvs') extra.
+Proof. exact essence_frame. Qed.
+Print Assumptions C04_essence_frame.
+
+(* any simultaneous change of system metadata (resourceVersion + generation + managedFields + finalizers + ...) *)
+Theorem C04_system_metadata_general :
+  forall dg ds ps kvs md md' extra,
+  lookup "metadata" kvs = Some (JObj md) ->
+  lookup "labels" md' = lookup "labels" md ->
+  lookup "annotations" md' = lookup "annotations" md ->
+  is_drs_body (JObj (set "metadata" (JObj md') kvs)) = is_drs_body (JObj kvs) ->
+  (forall f, In f extra -> hd_error f <> Some "metadata") ->
+  essence dg ds ps (JObj (set "metadata" (JObj md') kvs)) extra = essence dg ds ps (JObj kvs) extra.
+Proof. exact system_metadata_general. Qed.
+Print Assumptions C04_system_metadata_general.
+
+Theorem C04_system_kind_invisible :
+  forall dg ds ps kvs k' extra,
+  is_drs_body (JObj (set "kind" k' kvs)) = is_drs_body (JObj kvs) ->
+  (forall f, In f extra -> hd_error f <> Some "kind") ->
+  essence dg ds ps (JObj (set "kind" k' kvs)) extra = essence dg ds ps (JObj kvs) extra.
+Proof. exact system_kind_invisible. Qed.
+Print Assumptions C04_system_kind_invisible.
+
+(* EVERY merge-patch confined to the status stanza (status progress / diff-base storages, handler results), every configuration *)
+Theorem C04_status_patch_invisible :
+  forall dg ds ps kvs sp extra,
+  (forall f, In f extra -> hd_error f <> Some "status") ->
+  essence dg ds ps (merge (JObj kvs) (JObj [("status", sp)])) extra = essence dg ds ps (JObj kvs) extra.
+Proof. exact status_patch_invisible. Qed.
+Print Assumptions C04_status_patch_invisible.
+
+(* the exact proviso when handlers' fields live inside status: they must not see the change *)
+Theorem C04_status_patch_invisible_fields :
+  forall dg ds ps kvs sp extra,
+  (forall f, In f extra ->
+     resolve_strict (merge (JObj kvs) (JObj [("status", sp)])) f = resolve_strict (JObj kvs) f) ->
+  essence dg ds ps (merge (JObj kvs) (JObj [("status", sp)])) extra = essence dg ds ps (JObj kvs) extra.
+Proof. exact status_patch_invisible_fields. Qed.
+Print Assumptions C04_status_patch_invisible_fields.
+
+(* progression.deliver_results (Model/Results.v): the handlers' results *)
+Theorem C04_results_invisible :
+  forall dg ds ps kvs outs p extra,
+  (forall f, In f extra -> hd_error f <> Some "status") ->
+  deliver_results outs (JObj []) = Ok p ->
+  essence dg ds ps (merge (JObj kvs) p) extra = essence dg ds ps (JObj kvs) extra.
+Proof. exact results_invisible. Qed.
+Print Assumptions C04_results_invisible.
+
+(* finalizers.block_deletion / allow_deletion (Model/OwnWrites.v), every configuration *)
+Theorem C04_finalizer_block_invisible :
+  forall dg ds ps fin body body' extra,
+  (forall f, In f extra -> hd_error f <> Some "metadata") ->
+  fin_block fin body = Ok body' ->
+  essence dg ds ps body' extra = essence dg ds ps body extra.
+Proof. exact finalizer_block_invisible. Qed.
+Print Assumptions C04_finalizer_block_invisible.
+
+Theorem C04_finalizer_allow_invisible :
+  forall dg ds ps fin body body' extra,
+  (forall f, In f extra -> hd_error f <> Some "metadata") ->
+  fin_allow fin body = Ok body' ->
+  essence dg ds ps body' extra = essence dg ds ps body extra.
+Proof. exact finalizer_allow_invisible. Qed.
+Print Assumptions C04_finalizer_allow_invisible.
+
+(* OBSERVATION (kopf's tests pin the TypeError of dicts.cherrypick): a handler's field path through a non-mapping value makes the essence fail *)
+Theorem C04_field_through_nonmapping_fails :
+  forall dg ds ps kvs extra f,
+  In f extra -> resolve_strict (JObj kvs) f = ErrType ->
+  forall e, essence dg ds ps (JObj kvs) extra <> Ok e.
+Proof. exact field_through_nonmapping_fails. Qed.
+Print Assumptions C04_field_through_nonmapping_fails.
+
+(* non-vacuity *)
+Example C04_ex_frame :
+  essence fr_dg fr_ds fr_ps (JObj fr_kvs0) fr_extra = essence fr_dg fr_ds fr_ps (JObj fr_kvs1) fr_extra /\
+  essence fr_dg fr_ds fr_ps (JObj fr_kvs0) fr_extra = Ok fr_essence0.
+Proof. exact fr_ex_frame. Qed.
+Print Assumptions C04_ex_frame.
+
+Example C04_ex_metadata_general :
+  set "metadata" (JObj fr_md1) fr_kvs0 <> fr_kvs0 /\
+  essence fr_dg fr_ds fr_ps (JObj (set "metadata" (JObj fr_md1) fr_kvs0)) fr_extra = Ok fr_essence0.
+Proof. exact fr_ex_metadata_general. Qed.
+Print Assumptions C04_ex_metadata_general.
+
+Example C04_ex_status_patch :
+  merge (JObj fr_kvs0) (JObj [("status", fr_sp)]) <> JObj fr_kvs0 /\
+  essence fr_dg fr_ds fr_ps (merge (JObj fr_kvs0) (JObj [("status", fr_sp)])) fr_extra = Ok fr_essence0.
+Proof. exact fr_ex_status_patch. Qed.
+Print Assumptions C04_ex_status_patch.
+
+Example C04_ex_fin_allow :
+  fin_allow fr_marker (JObj fr_kvs2) = Ok (JObj (del "metadata" fr_kvs2)) /\
+  fin_allow fr_marker (JObj fr_kvs1) =
+    Ok (JObj (set "metadata" (JObj (del "finalizers" fr_md1)) fr_kvs1)) /\
+  essence fr_dg fr_ds fr_ps (JObj (del "metadata" fr_kvs2)) fr_extra = essence fr_dg fr_ds fr_ps (JObj fr_kvs2) fr_extra /\
+  essence fr_dg fr_ds fr_ps (JObj fr_kvs2) fr_extra = Ok (JObj [("spec", JObj [("field", JNum 1)])]).
+Proof. exact fr_ex_fin_allow. Qed.
+Print Assumptions C04_ex_fin_allow.
+
+Example C04_ex_nonmapping :
+  essence fr_dg fr_ds fr_ps (JObj [("spec", JObj [("struct", JNull)])]) [["spec"; "struct"; "other"]] = ErrType.
+Proof. exact fr_ex_nonmapping. Qed.
+Print Assumptions C04_ex_nonmapping.
+
+Example C04_ex_results :
+  let body := [("kind", JStr "KopfExample"); ("metadata", JObj [("name", JStr "o")]); ("spec", JObj [("f", JNum 1)]);
+               ("status", JObj [("x", JNum 1)])] in
+  deliver_results [("create_fn", Some (JObj [("job", JStr "j1")])); ("upd", Some (JStr "done")); ("boom", None); ("quiet", Some JNull)] (JObj [])
+  = Ok (JObj [("status", JObj [("create_fn", JObj [("job", JStr "j1")]); ("upd", JStr "done")])])
+  /\ merge (JObj body) (JObj [("status", JObj [("create_fn", JObj [("job", JStr "j1")]); ("upd", JStr "done")])]) <> JObj body.
+Proof. exact results_invisible_ex. Qed.
+Print Assumptions C04_ex_results.
+
+
+(* ======================= deepening round: labels and ordinary annotations count (A6) ======================= *)
+(* every configuration (nested Multi), every body: an ordinary annotation is copied verbatim into the essence *)
+Theorem C04_annotation_visible :
+  forall dg ds ps kvs md anns j v extra e,
+  lookup "metadata" kvs = Some (JObj md) -> lookup "annotations" md = Some (JObj anns) ->
+  lookup j anns = Some v ->
+  ann_ordinary j anns ds ps -> fields_avoid "metadata" ds ps extra ->
+  essence dg ds ps (JObj kvs) extra = Ok e ->
+  resolve e ["metadata"; "annotations"; j] = Some v.
+Proof. exact annotation_visible. Qed.
+Print Assumptions C04_annotation_visible.
+
+Theorem C04_annotation_visible_gen :
+  forall dg ds ps kvs md anns j v extra e,
+  lookup "metadata" kvs = Some (JObj md) -> lookup "annotations" md = Some (JObj anns) ->
+  lookup j anns = Some v ->
+  ann_ordinary_gen dg j anns ds ps -> fields_avoid "metadata" ds ps extra ->
+  essence dg ds ps (JObj kvs) extra = Ok e ->
+  resolve e ["metadata"; "annotations"; j] = Some v.
+Proof. exact annotation_visible_gen. Qed.
+Print Assumptions C04_annotation_visible_gen.
+
+Theorem C04_labels_visible :
+  forall dg ds ps kvs md L extra e,
+  lookup "metadata" kvs = Some (JObj md) -> lookup "labels" md = Some L -> is_falsy L = false ->
+  fields_avoid "metadata" ds ps extra ->
+  essence dg ds ps (JObj kvs) extra = Ok e ->
+  resolve e ["metadata"; "labels"] = Some L.
+Proof. exact labels_visible. Qed.
+Print Assumptions C04_labels_visible.
+
+Theorem C04_label_visible :
+  forall dg ds ps kvs md labs k extra e,
+  lookup "metadata" kvs = Some (JObj md) -> lookup "labels" md = Some (JObj labs) -> labs <> [] ->
+  fields_avoid "metadata" ds ps extra ->
+  essence dg ds ps (JObj kvs) extra = Ok e ->
+  resolve e ["metadata"; "labels"; k] = lookup k labs.
+Proof. exact label_visible. Qed.
+Print Assumptions C04_label_visible.
+
+Theorem C04_annotation_change_visible :
+  forall dg ds ps kvs kvs' md md' anns anns' j v v' extra e e',
+  lookup "metadata" kvs = Some (JObj md) -> lookup "annotations" md = Some (JObj anns) -> lookup j anns = Some v ->
+  lookup "metadata" kvs' = Some (JObj md') -> lookup "annotations" md' = Some (JObj anns') -> lookup j anns' = Some v' ->
+  v <> v' ->
+  ann_ordinary j anns ds ps -> ann_ordinary j anns' ds ps ->
+  fields_avoid "metadata" ds ps extra ->
+  essence dg ds ps (JObj kvs) extra = Ok e ->
+  essence dg ds ps (JObj kvs') extra = Ok e' ->
+  e <> e'.
+Proof. exact annotation_change_visible. Qed.
+Print Assumptions C04_annotation_change_visible.
+
+Theorem C04_annotation_add_visible :
+  forall dg ds ps kvs b' md anns j v extra e e',
+  lookup "metadata" kvs = Some (JObj md) -> lookup "annotations" md = Some (JObj anns) -> lookup j anns = Some v ->
+  resolve b' ["metadata"; "annotations"; j] = None ->
+  ann_ordinary j anns ds ps ->
+  fields_avoid "metadata" ds ps extra ->
+  essence dg ds ps (JObj kvs) extra = Ok e ->
+  essence dg ds ps b' extra = Ok e' ->
+  e <> e'.
+Proof. exact annotation_add_visible. Qed.
+Print Assumptions C04_annotation_add_visible.
+
+Theorem C04_label_change_visible :
+  forall dg ds ps kvs kvs' md md' L L' extra e e',
+  lookup "metadata" kvs = Some (JObj md) -> lookup "labels" md = Some L -> is_falsy L = false ->
+  lookup "metadata" kvs' = Some (JObj md') -> lookup "labels" md' = Some L' -> is_falsy L' = false ->
+  L <> L' ->
+  fields_avoid "metadata" ds ps extra ->
+  essence dg ds ps (JObj kvs) extra = Ok e ->
+  essence dg ds ps (JObj kvs') extra = Ok e' ->
+  e <> e'.
+Proof. exact label_change_visible. Qed.
+Print Assumptions C04_label_change_visible.
+
+Theorem C04_labels_absent :
+  forall dg ds ps b extra e,
+  (forall x, resolve b ["metadata"; "labels"] = Some x -> is_falsy x = true) ->
+  (forall f, In f extra -> hd_error f <> Some "metadata") ->
+  essence dg ds ps b extra = Ok e ->
+  resolve e ["metadata"; "labels"] = None.
+Proof. exact labels_absent. Qed.
+Print Assumptions C04_labels_absent.
+
+Theorem C04_label_remove_visible :
+  forall dg ds ps kvs b' md L extra e e',
+  lookup "metadata" kvs = Some (JObj md) -> lookup "labels" md = Some L -> is_falsy L = false ->
+  (forall x, resolve b' ["metadata"; "labels"] = Some x -> is_falsy x = true) ->
+  fields_avoid "metadata" ds ps extra ->
+  essence dg ds ps (JObj kvs) extra = Ok e ->
+  essence dg ds ps b' extra = Ok e' ->
+  e <> e'.
+Proof. exact label_remove_visible. Qed.
+Print Assumptions C04_label_remove_visible.
+
+Example C04_ex_visible_essence_ok :
+  essence (table_dg []) vs_ex_ds vs_ex_ps (JObj vs_ex_kvs) [] = Ok vs_ex_essence.
+Proof. exact vs_ex_essence_ok. Qed.
+Print Assumptions C04_ex_visible_essence_ok.
+
+Example C04_ex_visible_annotation_visible :
+  forall e,
+  essence (table_dg []) vs_ex_ds vs_ex_ps (JObj vs_ex_kvs) [] = Ok e ->
+  resolve e ["metadata"; "annotations"; "note"] = Some (JStr "x").
+Proof. exact vs_ex_annotation_visible. Qed.
+Print Assumptions C04_ex_visible_annotation_visible.
+
+Example C04_ex_visible_labels_visible :
+  forall e,
+  essence (table_dg []) vs_ex_ds vs_ex_ps (JObj vs_ex_kvs) [] = Ok e ->
+  resolve e ["metadata"; "labels"] = Some (JObj [("app", JStr "v")]).
+Proof. exact vs_ex_labels_visible. Qed.
+Print Assumptions C04_ex_visible_labels_visible.
+
+Example C04_ex_visible2_essence_ok :
+  essence (table_dg []) vs_ex_ds2 vs_ex_ps2 (JObj vs_ex_kvs) [["status"; "x"]] = Ok vs_ex_essence.
+Proof. exact vs_ex2_essence_ok. Qed.
+Print Assumptions C04_ex_visible2_essence_ok.
+
+
+(* ======================= deepening round: the whole cycle and no self-trigger (A1, A4) ======================= *)
+(* the last-handled state under exactly the guard F41 violates (supersedes C04_own_diffbase_store_invisible_partial) *)
+Theorem C04_own_diffbase_store_invisible :
+  forall dg Q key v1 Q' pv1 verbose tk kvs md A e p,
+  Q <> "" -> C04Own.no_slash Q = true -> Q' <> "" ->
+  lookup "metadata" kvs = Some (JObj md) -> lookup "annotations" md = Some (JObj A) ->
+  (forall j, In j (keys A) -> under_prefix Q j = true ->
+     vis Q' (full_keys dg Q v1 (body_with kvs md A) key) A j = false) ->
+  dstore dg (DAnn Q key v1 []) (JObj kvs) (JObj []) e = Ok p ->
+  essence dg (DAnn Q key v1 []) (PAnn Q' pv1 verbose tk) (merge (JObj kvs) p) []
+  = essence dg (DAnn Q key v1 []) (PAnn Q' pv1 verbose tk) (JObj kvs) [].
+Proof. exact own_diffbase_store_invisible. Qed.
+Print Assumptions C04_own_diffbase_store_invisible.
+
+Theorem C04_own_diffbase_first_store_invisible :
+  forall dg Q key v1 Q' pv1 verbose tk kvs md A e p,
+  Q <> "" -> C04Own.no_slash Q = true -> Q' <> "" ->
+  lookup "metadata" kvs = Some (JObj md) -> lookup "annotations" md = Some (JObj A) ->
+  (forall j, In j (keys A) -> under_prefix Q j = true ->
+     mem_str j (full_keys dg Q v1 (body_with kvs md A) key) = true \/ under_prefix Q' j = true) ->
+  dstore dg (DAnn Q key v1 []) (JObj kvs) (JObj []) e = Ok p ->
+  essence dg (DAnn Q key v1 []) (PAnn Q' pv1 verbose tk) (merge (JObj kvs) p) []
+  = essence dg (DAnn Q key v1 []) (PAnn Q' pv1 verbose tk) (JObj kvs) [].
+Proof. exact own_diffbase_first_store_invisible. Qed.
+Print Assumptions C04_own_diffbase_first_store_invisible.
+
+Theorem C04_own_diffbase_fresh_store_invisible :
+  forall dg Q key v1 Q' pv1 verbose tk kvs md A e p,
+  Q <> "" -> C04Own.no_slash Q = true -> Q' <> "" ->
+  lookup "metadata" kvs = Some (JObj md) -> lookup "annotations" md = Some (JObj A) ->
+  (forall j, In j (keys A) -> under_prefix Q j = false) ->
+  dstore dg (DAnn Q key v1 []) (JObj kvs) (JObj []) e = Ok p ->
+  essence dg (DAnn Q key v1 []) (PAnn Q' pv1 verbose tk) (merge (JObj kvs) p) []
+  = essence dg (DAnn Q key v1 []) (PAnn Q' pv1 verbose tk) (JObj kvs) [].
+Proof. exact own_diffbase_fresh_store_invisible. Qed.
+Print Assumptions C04_own_diffbase_fresh_store_invisible.
+
+Theorem C04_own_diffbase_store_invisible_smart :
+  forall dg Q key v1 Q' pv1 verbose tk field tf kvs md A e p,
+  Q <> "" -> C04Own.no_slash Q = true -> Q' <> "" -> hd_error field = Some "status" ->
+  lookup "metadata" kvs = Some (JObj md) -> lookup "annotations" md = Some (JObj A) ->
+  (forall j, In j (keys A) -> under_prefix Q j = true ->
+     vis Q' (full_keys dg Q v1 (body_with kvs md A) key) A j = false) ->
+  dstore dg (DAnn Q key v1 []) (JObj kvs) (JObj []) e = Ok p ->
+  essence dg (DAnn Q key v1 []) (smart Q' pv1 verbose tk field tf) (merge (JObj kvs) p) []
+  = essence dg (DAnn Q key v1 []) (smart Q' pv1 verbose tk field tf) (JObj kvs) [].
+Proof. exact own_diffbase_store_invisible_smart. Qed.
+Print Assumptions C04_own_diffbase_store_invisible_smart.
+
+(* ANY list of framework writes accumulated in one patch (Model/OwnWrites.v own_patch) *)
+Theorem C04_own_patch_invisible :
+  forall dg Q key v1 Q' pv1 verbose tk kvs md A ops p,
+  Q <> "" -> Q' <> "" -> C04Own.no_slash Q = true -> C04Own.no_slash Q' = true ->
+  lookup "metadata" kvs = Some (JObj md) -> lookup "annotations" md = Some (JObj A) ->
+  ops_ok Q Q' ops ->
+  (forall j, In j (keys A) -> under_prefix Q j = true ->
+     vis Q' (full_keys dg Q v1 (body_with kvs md A) key) A j = false) ->
+  own_patch dg (DAnn Q key v1 []) (PAnn Q' pv1 verbose tk) (JObj kvs) ops = Ok p ->
+  essence dg (DAnn Q key v1 []) (PAnn Q' pv1 verbose tk) (merge (JObj kvs) p) []
+  = essence dg (DAnn Q key v1 []) (PAnn Q' pv1 verbose tk) (JObj kvs) [].
+Proof. exact own_patch_invisible. Qed.
+Print Assumptions C04_own_patch_invisible.
+
+Theorem C04_own_patch_invisible_same_prefix :
+  forall dg Q key v1 pv1 verbose tk kvs md A ops p,
+  Q <> "" -> C04Own.no_slash Q = true ->
+  lookup "metadata" kvs = Some (JObj md) -> lookup "annotations" md = Some (JObj A) ->
+  ops_ok Q Q ops ->
+  own_patch dg (DAnn Q key v1 []) (PAnn Q pv1 verbose tk) (JObj kvs) ops = Ok p ->
+  essence dg (DAnn Q key v1 []) (PAnn Q pv1 verbose tk) (merge (JObj kvs) p) []
+  = essence dg (DAnn Q key v1 []) (PAnn Q pv1 verbose tk) (JObj kvs) [].
+Proof. exact own_patch_invisible_same_prefix. Qed.
+Print Assumptions C04_own_patch_invisible_same_prefix.
+
+Theorem C04_own_patch_invisible_marked :
+  forall dg Q key v1 Q' pv1 verbose tk kvs md A ops p,
+  Q <> "" -> Q' <> "" -> C04Own.no_slash Q = true -> C04Own.no_slash Q' = true ->
+  lookup "metadata" kvs = Some (JObj md) -> lookup "annotations" md = Some (JObj A) ->
+  ops_ok Q Q' ops -> In Q (marked_prefixes (keys A)) ->
+  own_patch dg (DAnn Q key v1 []) (PAnn Q' pv1 verbose tk) (JObj kvs) ops = Ok p ->
+  essence dg (DAnn Q key v1 []) (PAnn Q' pv1 verbose tk) (merge (JObj kvs) p) []
+  = essence dg (DAnn Q key v1 []) (PAnn Q' pv1 verbose tk) (JObj kvs) [].
+Proof. exact own_patch_invisible_marked. Qed.
+Print Assumptions C04_own_patch_invisible_marked.
+
+Theorem C04_own_patch_after_store_invisible :
+  forall dg Q key v1 Q' pv1 verbose tk kvs md A e p ops p2,
+  Q <> "" -> Q' <> "" -> C04Own.no_slash Q = true -> C04Own.no_slash Q' = true ->
+  lookup "metadata" kvs = Some (JObj md) -> lookup "annotations" md = Some (JObj A) ->
+  (forall j, In j (keys A) -> under_prefix Q j = true ->
+     vis Q' (full_keys dg Q v1 (body_with kvs md A) key) A j = false) ->
+  dstore dg (DAnn Q key v1 []) (JObj kvs) (JObj []) e = Ok p ->
+  ops_ok Q Q' ops ->
+  own_patch dg (DAnn Q key v1 []) (PAnn Q' pv1 verbose tk) (merge (JObj kvs) p) ops = Ok p2 ->
+  essence dg (DAnn Q key v1 []) (PAnn Q' pv1 verbose tk) (merge (merge (JObj kvs) p) p2) []
+  = essence dg (DAnn Q key v1 []) (PAnn Q' pv1 verbose tk) (JObj kvs) [].
+Proof. exact own_patch_after_store_invisible. Qed.
+Print Assumptions C04_own_patch_after_store_invisible.
+
+Theorem C04_own_body_after_invisible :
+  forall dg Q key v1 Q' pv1 verbose tk kvs md A ops b,
+  Q <> "" -> Q' <> "" -> C04Own.no_slash Q = true -> C04Own.no_slash Q' = true ->
+  lookup "metadata" kvs = Some (JObj md) -> lookup "annotations" md = Some (JObj A) ->
+  ops_ok Q Q' ops ->
+  (forall j, In j (keys A) -> under_prefix Q j = true ->
+     vis Q' (full_keys dg Q v1 (body_with kvs md A) key) A j = false) ->
+  own_body_after dg (DAnn Q key v1 []) (PAnn Q' pv1 verbose tk) (JObj kvs) ops = Ok b ->
+  essence dg (DAnn Q key v1 []) (PAnn Q' pv1 verbose tk) b []
+  = essence dg (DAnn Q key v1 []) (PAnn Q' pv1 verbose tk) (JObj kvs) [].
+Proof. exact own_body_after_invisible. Qed.
+Print Assumptions C04_own_body_after_invisible.
+
+Theorem C04_own_patch_invisible_smart_partial :
+  forall dg Q key v1 Q' pv1 verbose tk field tf kvs md A ops p,
+  Q <> "" -> Q' <> "" -> C04Own.no_slash Q = true -> C04Own.no_slash Q' = true ->
+  lookup "metadata" kvs = Some (JObj md) -> lookup "annotations" md = Some (JObj A) ->
+  hd_error field = Some "status" ->
+  ops_ok Q Q' ops ->
+  (forall hkey, In (OwPurge hkey) ops -> resolve (JObj kvs) (field ++ [hkey]) = None) ->
+  (forall j, In j (keys A) -> under_prefix Q j = true ->
+     vis Q' (full_keys dg Q v1 (body_with kvs md A) key) A j = false) ->
+  own_patch dg (DAnn Q key v1 []) (smart Q' pv1 verbose tk field tf) (JObj kvs) ops = Ok p ->
+  essence dg (DAnn Q key v1 []) (smart Q' pv1 verbose tk field tf) (merge (JObj kvs) p) []
+  = essence dg (DAnn Q key v1 []) (smart Q' pv1 verbose tk field tf) (JObj kvs) [].
+Proof. exact own_patch_invisible_smart_partial. Qed.
+Print Assumptions C04_own_patch_invisible_smart_partial.
+
+Theorem C04_essence_wf :
+  forall dg Q key v1 Q' pv1 verbose tk kvs md A e,
+  Q' <> "" -> lookup "metadata" kvs = Some (JObj md) -> lookup "annotations" md = Some (JObj A) ->
+  wf (JObj kvs) = true ->
+  essence dg (DAnn Q key v1 []) (PAnn Q' pv1 verbose tk) (JObj kvs) [] = Ok e -> wf e = true.
+Proof. exact essence_wf. Qed.
+Print Assumptions C04_essence_wf.
+
+Theorem C04_pclear_essence_idempotent :
+  forall dg Q key v1 Q' pv1 verbose tk kvs md A e,
+  Q' <> "" -> lookup "metadata" kvs = Some (JObj md) -> lookup "annotations" md = Some (JObj A) ->
+  essence dg (DAnn Q key v1 []) (PAnn Q' pv1 verbose tk) (JObj kvs) [] = Ok e ->
+  pclear (PAnn Q' pv1 verbose tk) e = Ok e /\ exists o, e = JObj o.
+Proof. exact pclear_essence_idempotent. Qed.
+Print Assumptions C04_pclear_essence_idempotent.
+
+Theorem C04_diffbase_fetch_after_store :
+  forall dg Q key v1 kvs md A e p o,
+  lookup "metadata" kvs = Some (JObj md) -> lookup "annotations" md = Some (JObj A) ->
+  e = JObj o ->
+  dstore dg (DAnn Q key v1 []) (JObj kvs) (JObj []) e = Ok p ->
+  dfetch dg (DAnn Q key v1 []) (merge (JObj kvs) p) = Ok (Some e).
+Proof. exact diffbase_fetch_after_store. Qed.
+Print Assumptions C04_diffbase_fetch_after_store.
+
+(* after the new essence has been recorded, the next detection sees old = new and an EMPTY diff (cause NOOP) *)
+Theorem C04_no_self_trigger :
+  forall dg Q key v1 Q' pv1 verbose tk kvs md A e p,
+  Q <> "" -> C04Own.no_slash Q = true -> Q' <> "" ->
+  lookup "metadata" kvs = Some (JObj md) -> lookup "annotations" md = Some (JObj A) ->
+  (forall j, In j (keys A) -> under_prefix Q j = true ->
+     vis Q' (full_keys dg Q v1 (body_with kvs md A) key) A j = false) ->
+  essence dg (DAnn Q key v1 []) (PAnn Q' pv1 verbose tk) (JObj kvs) [] = Ok e ->
+  wf e = true ->
+  dstore dg (DAnn Q key v1 []) (JObj kvs) (JObj []) e = Ok p ->
+  old_new_diff dg (DAnn Q key v1 []) (PAnn Q' pv1 verbose tk) (merge (JObj kvs) p) [] = Ok (Some e, e, []).
+Proof. exact no_self_trigger. Qed.
+Print Assumptions C04_no_self_trigger.
+
+Theorem C04_no_self_trigger_wf_body :
+  forall dg Q key v1 Q' pv1 verbose tk kvs md A e p,
+  Q <> "" -> C04Own.no_slash Q = true -> Q' <> "" ->
+  lookup "metadata" kvs = Some (JObj md) -> lookup "annotations" md = Some (JObj A) ->
+  (forall j, In j (keys A) -> under_prefix Q j = true ->
+     vis Q' (full_keys dg Q v1 (body_with kvs md A) key) A j = false) ->
+  wf (JObj kvs) = true ->
+  essence dg (DAnn Q key v1 []) (PAnn Q' pv1 verbose tk) (JObj kvs) [] = Ok e ->
+  dstore dg (DAnn Q key v1 []) (JObj kvs) (JObj []) e = Ok p ->
+  old_new_diff dg (DAnn Q key v1 []) (PAnn Q' pv1 verbose tk) (merge (JObj kvs) p) [] = Ok (Some e, e, []) /\
+  classify_change (Some e) [] = KSame.
+Proof. exact no_self_trigger_wf_body. Qed.
+Print Assumptions C04_no_self_trigger_wf_body.
+
+Theorem C04_no_self_trigger_smart :
+  forall dg Q key v1 Q' pv1 verbose tk field tf kvs md A e p,
+  Q <> "" -> C04Own.no_slash Q = true -> Q' <> "" -> hd_error field = Some "status" ->
+  lookup "metadata" kvs = Some (JObj md) -> lookup "annotations" md = Some (JObj A) ->
+  (forall j, In j (keys A) -> under_prefix Q j = true ->
+     vis Q' (full_keys dg Q v1 (body_with kvs md A) key) A j = false) ->
+  essence dg (DAnn Q key v1 []) (smart Q' pv1 verbose tk field tf) (JObj kvs) [] = Ok e ->
+  wf e = true ->
+  dstore dg (DAnn Q key v1 []) (JObj kvs) (JObj []) e = Ok p ->
+  old_new_diff dg (DAnn Q key v1 []) (smart Q' pv1 verbose tk field tf) (merge (JObj kvs) p) []
+  = Ok (Some e, e, []).
+Proof. exact no_self_trigger_smart. Qed.
+Print Assumptions C04_no_self_trigger_smart.
+
+Theorem C04_no_self_trigger_after_own_writes :
+  forall dg Q key v1 Q' pv1 verbose tk kvs md A e p ops p2,
+  Q <> "" -> C04Own.no_slash Q = true -> Q' <> "" -> C04Own.no_slash Q' = true -> Q <> Q' ->
+  lookup "metadata" kvs = Some (JObj md) -> lookup "annotations" md = Some (JObj A) ->
+  (forall j, In j (keys A) -> under_prefix Q j = true ->
+     vis Q' (full_keys dg Q v1 (body_with kvs md A) key) A j = false) ->
+  essence dg (DAnn Q key v1 []) (PAnn Q' pv1 verbose tk) (JObj kvs) [] = Ok e ->
+  wf e = true ->
+  dstore dg (DAnn Q key v1 []) (JObj kvs) (JObj []) e = Ok p ->
+  Forall (cy_prog_ok Q') ops ->
+  own_patch dg (DAnn Q key v1 []) (PAnn Q' pv1 verbose tk) (merge (JObj kvs) p) ops = Ok p2 ->
+  old_new_diff dg (DAnn Q key v1 []) (PAnn Q' pv1 verbose tk) (merge (merge (JObj kvs) p) p2) []
+  = Ok (Some e, e, []).
+Proof. exact no_self_trigger_after_own_writes. Qed.
+Print Assumptions C04_no_self_trigger_after_own_writes.
+
+(* non-vacuity: kopf defaults, and a custom diff-base prefix *)
+Example C04_no_self_trigger_example_default :
+  let Q := "kopf.zalando.org" in
+  let ds := DAnn Q "last-handled-configuration" true [] in
+  let ps := PAnn Q true false "touch-dummy" in
+  cy_ex_hyps Q Q /\
+  (* first detection: never handled, cause CREATE *)
+  (exists d, old_new_diff (table_dg []) ds ps (JObj cy_ex_kvs) [] = Ok (None, cy_ex_e, d) /\
+             classify_change None d = KCreate) /\
+  essence (table_dg []) ds ps (JObj cy_ex_kvs) [] = Ok cy_ex_e /\
+  dstore (table_dg []) ds (JObj cy_ex_kvs) (JObj []) cy_ex_e
+  = Ok (ann_patch [("kopf.zalando.org/last-handled-configuration", JEnc cy_ex_e)]) /\
+  old_new_diff (table_dg []) ds ps
+    (merge (JObj cy_ex_kvs) (ann_patch [("kopf.zalando.org/last-handled-configuration", JEnc cy_ex_e)])) []
+  = Ok (Some cy_ex_e, cy_ex_e, []) /\
+  (* the whole cycle in one patch *)
+  own_patch (table_dg []) ds ps (JObj cy_ex_kvs) cy_ex_ops
+  = Ok (ann_patch [("kopf.zalando.org/create_fn", JEnc (JObj [("started", JStr "t0"); ("success", JBool true)]));
+                   ("kopf.zalando.org/old_fn", JNull);
+                   ("kopf.zalando.org/last-handled-configuration", JEnc cy_ex_e);
+                   ("kopf.zalando.org/touch-dummy", JNull)]) /\
+  bind (own_body_after (table_dg []) ds ps (JObj cy_ex_kvs) cy_ex_ops)
+       (fun b => old_new_diff (table_dg []) ds ps b [])
+  = Ok (Some cy_ex_e, cy_ex_e, []).
+Proof. exact no_self_trigger_example_default. Qed.
+Print Assumptions C04_no_self_trigger_example_default.
+
+Example C04_no_self_trigger_example_custom :
+  let Q := "my-op.example.com" in
+  let Q' := "kopf.zalando.org" in
+  let ds := DAnn Q "last-handled-configuration" true [] in
+  let ps := PAnn Q' true false "touch-dummy" in
+  cy_ex_hyps Q Q' /\
+  essence (table_dg []) ds ps (JObj cy_ex_kvs) [] = Ok cy_ex_e /\
+  dstore (table_dg []) ds (JObj cy_ex_kvs) (JObj []) cy_ex_e
+  = Ok (ann_patch [("my-op.example.com/last-handled-configuration", JEnc cy_ex_e);
+                   ("my-op.example.com/kopf-managed", JStr "yes")]) /\
+  old_new_diff (table_dg []) ds ps
+    (merge (JObj cy_ex_kvs) (ann_patch [("my-op.example.com/last-handled-configuration", JEnc cy_ex_e);
+                                        ("my-op.example.com/kopf-managed", JStr "yes")])) []
+  = Ok (Some cy_ex_e, cy_ex_e, []) /\
+  own_patch (table_dg []) ds ps (JObj cy_ex_kvs) cy_ex_ops
+  = Ok (ann_patch [("kopf.zalando.org/create_fn", JEnc (JObj [("started", JStr "t0"); ("success", JBool true)]));
+                   ("kopf.zalando.org/old_fn", JNull);
+                   ("my-op.example.com/last-handled-configuration", JEnc cy_ex_e);
+                   ("my-op.example.com/kopf-managed", JStr "yes");
+                   ("kopf.zalando.org/touch-dummy", JNull)]) /\
+  bind (own_body_after (table_dg []) ds ps (JObj cy_ex_kvs) cy_ex_ops)
+       (fun b => essence (table_dg []) ds ps b []) = Ok cy_ex_e /\
+  bind (own_body_after (table_dg []) ds ps (JObj cy_ex_kvs) cy_ex_ops)
+       (fun b => old_new_diff (table_dg []) ds ps b [])
+  = Ok (Some cy_ex_e, cy_ex_e, []).
+Proof. exact no_self_trigger_example_custom. Qed.
+Print Assumptions C04_no_self_trigger_example_custom.
+
+(* the guard cannot be dropped: F41 as an actual self-trigger (one spurious UPDATE) *)
+Example C04_no_self_trigger_guard_needed :
+  let Q := "my-op.example.com" in
+  let ds := DAnn Q "last-handled-configuration" true [] in
+  let ps := PAnn "kopf.zalando.org" true false "touch-dummy" in
+  let A := [("my-op.example.com/note", JStr "x")] in
+  let md := [("name", JStr "x"); ("annotations", JObj A)] in
+  let kvs := [("apiVersion", JStr "v1"); ("kind", JStr "KopfExample"); ("metadata", JObj md);
+              ("spec", JObj [("field", JNum 1)])] in
+  let e := JObj [("spec", JObj [("field", JNum 1)]);
+                 ("metadata", JObj [("annotations", JObj [("my-op.example.com/note", JStr "x")])])] in
+  vis "kopf.zalando.org" (full_keys (table_dg []) Q true (body_with kvs md A) "last-handled-configuration") A
+    "my-op.example.com/note" = true /\
+  essence (table_dg []) ds ps (JObj kvs) [] = Ok e /\ wf e = true /\
+  exists p d,
+    dstore (table_dg []) ds (JObj kvs) (JObj []) e = Ok p /\
+    old_new_diff (table_dg []) ds ps (merge (JObj kvs) p) []
+    = Ok (Some e, JObj [("spec", JObj [("field", JNum 1)])], d) /\
+    classify_change (Some e) d = KUpdate.
+Proof. exact no_self_trigger_guard_needed. Qed.
+Print Assumptions C04_no_self_trigger_guard_needed.
+
